@@ -469,12 +469,13 @@ pub(super) fn siv_encrypt(
 }
 
 pub(super) fn make_server(cfg: Cfg, sync: &Sync, keys: &Arc<KeySet>) -> Server<MockClock> {
-    Server::new_internal(
-        server_config(cfg),
-        MockClock,
-        Arc::new(RwLock::new(server_info(sync))),
-        keys.clone(),
-    )
+    make_server_shared(cfg, Arc::new(RwLock::new(server_info(sync))), keys)
+}
+
+/// A server that answers from a snapshot the harness keeps a handle on (the daemon's system
+/// task publishes new snapshots through the same `Arc<RwLock<_>>`).
+pub(super) fn make_server_shared(cfg: Cfg, info: Arc<RwLock<NtpServerInfo>>, keys: &Arc<KeySet>) -> Server<MockClock> {
+    Server::new_internal(server_config(cfg), MockClock, info, keys.clone())
 }
 
 #[derive(Clone, Debug, PartialEq, Eq)]
